@@ -486,6 +486,12 @@ impl<'a> Builder<'a> {
                 let s = boxed(s.replication(r.to_renoir()));
                 self.probe(s, path, 0, "start")
             }
+            UnOp::RepartBy(r, m) => {
+                let s = self.probe(s, path, 0, "pre");
+                let m = m.max(1);
+                let s = boxed(s.repartition_by(r.to_renoir(), move |e: &E| (e.key % m) as u64));
+                self.probe(s, path, 0, "start")
+            }
             UnOp::Batch(bm) => s.batch_mode(bm.to_renoir()),
             UnOp::Broadcast => {
                 let s = self.probe(s, path, 0, "pre");
